@@ -533,8 +533,34 @@ def run_c16(ctx):
         for dflt in (names[0], names[-1]):
             cases.append({"recipe": dict(_R("Cfg", dict(_R("ccXor", *[LEAF(x) for x in names]), d=dflt), dict(_R("ccAny", *[LEAF(x) for x in names[::-1]]), d=dflt), id="cfg")), "src": "handmade"})
             cases.append({"recipe": dict(_R("ccXor", *[LEAF(x) for x in names]), d=dflt), "src": "handmade"})
+    cases += default_object_cases(ctx) + var_prefix_cases(ctx)
     ctx.pmap(drivers.drv_json, _stamp(cases, "drv_json"))
     ctx.validate()
+
+def default_object_cases(ctx):
+    """defaulted groups whose default is handed over as the option OBJECT (an item, or - observation O13 - a named sub-proposition
+    that is one of the options), next to the same groups with the default named by id"""
+    out = []
+    pk = lambda i: _R("All", LEAF("p1"), LEAF("p2"), id=i)
+    for grp in ("ccAny", "ccXor"):
+        for opts, d in (((pk("PACKAGE"), LEAF("q"), LEAF("r")), "PACKAGE"), ((LEAF("q"), pk("PK"), LEAF("r")), "q"), ((pk("B"), _R("Any", LEAF("x"), LEAF("y"), id="C"), LEAF("a")), "B"),
+                        ((LEAF("a"), LEAF("b"), LEAF("c")), "b"), ((LEAF("n", 0, 3), LEAF("b")), "n")):
+            for dobj in (True, False):
+                g = dict(_cc(grp, *opts, id="X"), d=d, dobj=dobj)
+                out.append({"recipe": _cc("Cfg", g, _R("Any", LEAF("u"), LEAF("w"), id="J"), id="cfg"), "src": "handmade"})
+                out.append({"recipe": g, "src": "handmade"})
+    ctx.region("default_given_as_object", len(out))
+    return out
+
+def var_prefix_cases(ctx):
+    """explicit ids that merely LOOK generated (they start with the generator's prefix): explicitness is not a matter of spelling"""
+    a, b, c = LEAF("a"), LEAF("b"), LEAF("c")
+    out = []
+    for i in ("VARIANTS", "VAR_2024", "VAR", "VARa"):
+        out += [_cc("Cfg", dict(_cc("ccAny", a, b, c, id="X"), d="a"), id=i), _cc("Cfg", _R("Any", a, b, id=i), id="cfg"), _R("All", _R("Any", a, b, id=i), c, id="A"),
+                _R("Imply", _R("All", a, b, id=i), c), _cc("Cfg", _R("Xor", a, b, c, id=i)), dict(_cc("ccXor", a, b, c, id=i), d="b")]
+    ctx.region("explicit_id_with_generator_prefix", len(out))
+    return [{"recipe": r, "src": "handmade"} for r in out]
 
 def run_c17(ctx):
     cases = serial_cases(ctx, ["C17"], small=True)
